@@ -286,10 +286,13 @@ def evaluate(plan, o):
         if xvt > rvt + 1e-9:
             v.append(viol("C14.K3" + sfx, rev, "receive callback #%d was still running at t=%.6f, after close() returned at t=%.6f" % (i, xvt, rvt)))
             break
-    est = [c for c in o.conns if c["at"] <= rvt]
+    # (a connection whose attempt was still in flight when close() started is K2's business)
+    est = [c for c in o.conns if _accept_trace_ev(o, c) < cev]
     if est:
         c = est[-1]
-        if c["closed_at"] is None:
+        if c["fault"] is not None and c["fault"][2] in ("reset", "write_fail") and c["closed_at"] is None:
+            pass          # the peer tore this link down itself: nothing is left to shut
+        elif c["closed_at"] is None:
             v.append(viol("C14.K3" + sfx, rev, "close() returned at t=%.6f but the link (connection %d) was never shut" %
                           (rvt, c["id"])))
         elif c["closed_at"][0] > rvt + 1.0:
